@@ -23,6 +23,7 @@ type World struct {
 	SPkgs  map[string]*ssa.Package // by import path
 	Funcs  map[string]*ssa.Function
 	tmpdir string
+	constGlobals map[*ssa.Global]bool
 }
 
 // loadWorld loads the packages matching patterns from the module rooted at
@@ -68,7 +69,7 @@ func loadWorld(modDir string, patterns []string) (*World, error) {
 	prog, _ := ssautil.AllPackages(pkgs, ssa.NaiveForm|ssa.GlobalDebug)
 	prog.Build()
 	w := &World{ModDir: modDir, Pkgs: pkgs, Prog: prog, SPkgs: map[string]*ssa.Package{},
-		Funcs: map[string]*ssa.Function{}, tmpdir: tmp}
+		Funcs: map[string]*ssa.Function{}, tmpdir: tmp, constGlobals: map[*ssa.Global]bool{}}
 	if len(pkgs) > 0 {
 		w.Fset = pkgs[0].Fset
 	}
